@@ -803,6 +803,8 @@ pub struct RunResult {
     pub events: Vec<Ev>,
     /// (usage, max) from the accounting hook after each successful write.
     pub mem_after: Vec<(usize, usize)>,
+    /// Real capacities in bytes (parsing buffer, open-element stack) after each successful write.
+    pub real_after: Vec<(usize, usize)>,
     /// Number of handler invocations (the fault-injection index space).
     pub handler_calls: usize,
 }
@@ -893,6 +895,7 @@ pub fn run_opts(p: &Prepared, chunks: &[&[u8]], do_end: bool, after_error_probe:
         snapshot(&mut rr);
         if res.is_ok() {
             rr.mem_after.push(rewriter.verif_memory_usage());
+            rr.real_after.push(rewriter.verif_real_capacity());
         }
         let ok = res.is_ok();
         rr.results.push(res);
